@@ -296,6 +296,7 @@ func init() {
 	var nSeeds int
 	mon.Register(&mon.Check{
 		ID:          "C14",
+		Solo:        c14Solo,
 		Rule:        "evaluations = result sets (real ones from linting corpus + hostile mutants + positional family members, and synthetic ones covering all eight statuses with adversarial details) sent through json.Marshal / json.Unmarshal and compared key by key (status, details against a byte-wise UTF-8 reference, flags, version), plus label-table checks (8 labels, seeded non-labels must be rejected) and WriteJSON listings of the global and seeded filtered registries decoded line by line. distinct_nontrivial = result sets whose details contained invalid UTF-8 or characters JSON must escape, plus distinct rejected non-labels.",
 		Assumptions: []string{"JSON null for a status and \\u-escaped spellings of a label are not judged (the property speaks of labels)"},
 		Setup: func(c *mon.Ctx) error {
@@ -339,6 +340,9 @@ func init() {
 			ev.Coverage["details_compared"] = r.Counters["details_compared"]
 			ev.Coverage["details_with_invalid_utf8"] = r.Counters["details_with_invalid_utf8"]
 			ev.Coverage["listing_lints_decoded"] = r.SetSize("listing_lints")
+			if r.Counters["listing_passes"] < 5 {
+				gates = append(gates, "the additions scenario (own process) did not complete")
+			}
 			if r.SetSize("synthetic_statuses") < 8 {
 				gates = append(gates, "synthetic result sets did not cover all eight statuses")
 			}
@@ -351,4 +355,51 @@ func init() {
 			return gates
 		},
 	})
+}
+
+// c14Solo (own process): the listing after additions. WriteJSON is called, a lint is registered through the
+// public API, WriteJSON is called again: one decodable line per registered lint, every time.
+func c14Solo(c *mon.Ctx) {
+	g := lint.GlobalRegistry()
+	check := func(when string) {
+		var buf bytes.Buffer
+		g.WriteJSON(&buf)
+		names := map[string]int{}
+		lines := 0
+		for _, l := range strings.Split(buf.String(), "\n") {
+			if l == "" {
+				continue
+			}
+			lines++
+			var m lint.LintMetadata
+			if err := json.Unmarshal([]byte(l), &m); err != nil {
+				c.V("listing-line-undecodable|"+when, fmt.Sprintf("%s: a WriteJSON line does not decode: %v: %s", when, err, clipS(l, 120)), "", nil, nil)
+				continue
+			}
+			names[m.Name]++
+		}
+		want := g.Names()
+		c.R.Count("evaluations", 1)
+		c.R.Count("listing_passes", 1)
+		if lines != len(want) {
+			c.V("listing-line-count|"+when, fmt.Sprintf("%s: WriteJSON printed %d lines for %d registered lints", when, lines, len(want)), "", nil, nil)
+		}
+		for _, n := range want {
+			if names[n] != 1 {
+				c.V("listing-missing|"+when, fmt.Sprintf("%s: lint %s appears %d times in the listing", when, n, names[n]), n, nil, nil)
+			}
+		}
+	}
+	check("before any addition")
+	md := func(n string, s lint.LintSource) lint.LintMetadata {
+		return lint.LintMetadata{Name: n, Description: "verif addition \"quoted\" <&>", Citation: "verif  ", Source: s}
+	}
+	lint.RegisterRevocationListLint(&lint.RevocationListLint{LintMetadata: md("e_verif_c14_crl", lint.RFC5280), Lint: func() lint.RevocationListLintInterface { return probeCRL{} }})
+	check("after adding a CRL lint")
+	lint.RegisterOcspResponseLint(&lint.OcspResponseLint{LintMetadata: md("w_verif_c14_ocsp", lint.RFC6960), Lint: func() lint.OcspResponseLintInterface { return probeOCSP{} }})
+	check("after adding an OCSP lint")
+	lint.RegisterCertificateLint(&lint.CertificateLint{LintMetadata: md("n_verif_c14_cert", lint.EtsiEsi), Lint: func() lint.CertificateLintInterface { return probeCert{} }})
+	check("after adding a certificate lint")
+	lint.RegisterRevocationListLint(&lint.RevocationListLint{LintMetadata: md("e_verif_c14_crl2", lint.Community), Lint: func() lint.RevocationListLintInterface { return probeCRL{} }})
+	check("after adding a second CRL lint")
 }
